@@ -1,4 +1,5 @@
 import FitProps.C17Defs
+import FitModel.Generated.GenDigest
 import FitProps.C17MesgLemmas
 import FitProps.C17TypesLemmas
 import FitProps.C17StrLemmas
